@@ -22,7 +22,14 @@ Inductive stmt : Set :=
 | SBreak
 | SContinue
 | SReturn (l : label)                         (* l: the (traced) evaluation of the return value *)
-with block : Set := BNil | BCons (s : stmt) (b : block).
+(* syntax only: carried through the passes so that their models can be compared structurally with the
+   real passes on programs that contain them; the semantics below gives them no rule (a run that
+   reaches one is stuck), so the theorems say nothing about such runs *)
+| STry (body : block) (handlers : blocks) (orelse final : block)
+| SWith (l : label) (body : block)
+| SRaise (l : label)
+with block : Set := BNil | BCons (s : stmt) (b : block)
+with blocks : Set := HNil | HCons (b : block) (h : blocks).
 
 Fixpoint bapp (a b : block) : block :=
   match a with BNil => b | BCons s r => BCons s (bapp r b) end.
@@ -30,7 +37,7 @@ Fixpoint bapp (a b : block) : block :=
 Definition store := flag -> bool.
 Definition upd (s : store) (f : flag) (v : bool) : store := fun g => if Nat.eqb g f then v else s g.
 
-Inductive outcome : Set := ONormal | OBrk | OCont | ORet | OFuel.
+Inductive outcome : Set := ONormal | OBrk | OCont | ORet | OFuel | OStuck.
 
 Definition decisions := list nat.
 Definition dhead (d : decisions) : bool := match d with [] => false | c :: _ => negb (Nat.eqb c 0) end.
@@ -73,6 +80,7 @@ Fixpoint exec_stmt (n : nat) (st : stmt) (s : store) (d : decisions) {struct n} 
           end
         else
           let '(tr, o, s', d') := exec_block n' orelse s d1 in (tc ++ tr, o, s', d')
+    | STry _ _ _ _ | SWith _ _ | SRaise _ => ([], OStuck, s, d)
     end
   end
 with exec_block (n : nat) (b : block) (s : store) (d : decisions) {struct n} : res :=
